@@ -476,6 +476,12 @@ def c18(sc, V):
             if l[1] not in allowed:
                 f.append({"sig": "signal-outside-watcher", "step": s.n,
                           "msg": "%s request for %r signalled pid %d which is not one of its workers/descendants" % (s.cmd(), name, l[1])})
+        # "the single given pid if it is one of them": a pid that is no worker of the named watcher (0, null, a foreign or dead
+        # pid, anything that is not a pid) addresses nobody — the request must not fall back to the whole watcher
+        if "pid" in p and not (isinstance(p["pid"], int) and not isinstance(p["pid"], bool) and p["pid"] in own):
+            f.append({"sig": "signal-to-unaddressed-workers", "step": s.n,
+                      "msg": "%s request for %r with pid %r (not a worker of it) signalled %r"
+                             % (s.cmd(), name, p["pid"], sorted(set(l[1] for l in sigs)))})
         if s.cmd() == "signal" and isinstance(p.get("signum"), int) and not isinstance(p.get("signum"), bool):
             for l in sigs:
                 if l[2] != p["signum"]:
